@@ -9,6 +9,7 @@ the continued fraction within its iteration cap are NOT theorems; they are exerc
 by the search layer (see notes/C12.md).
 -/
 import Proofs.Lemmas.C12Descr
+import Proofs.Lemmas.C12Dist
 import Model.Stats.TTest
 
 namespace C12
@@ -205,5 +206,113 @@ theorem ttest_errors_paired (sqrt : ℚ → ℚ) (x1 x2 : List ℚ) (μ0 : ℚ) 
     rw [if_neg (by simp [hl]), if_pos h2]
 
 end TTest
+
+/-! ### distribution functions -/
+section Dist
+open Stats.Dists Stats.Beta
+
+/-- **tcdf_reflection** — for x < 0 the model of `TDist.CDF` returns 1 − CDF(−x). -/
+theorem tcdf_reflection (I : ℚ → ℚ → ℚ → ℚ) (ν x : ℚ) (hx : x < 0) :
+    ∃ v, tcdf I ν (-x) = some v ∧ tcdf I ν x = some (1 - v) :=
+  ⟨_, (tcdf_neg_eq I ν x hx).2, (tcdf_neg_eq I ν x hx).1⟩
+
+/-- **tcdf_range** — for ANY `I` with values in [0,1] (whatever lgamma/exp/log/the continued
+fraction deliver) the t distribution function is defined everywhere, lies in [0,1], is ≥ ½ on the
+right and ≤ ½ on the left of 0, and equals ½ at 0. -/
+theorem tcdf_range (I : ℚ → ℚ → ℚ → ℚ) (hI : ∀ z a b, 0 ≤ I z a b ∧ I z a b ≤ 1) (ν x : ℚ) :
+    ∃ v, tcdf I ν x = some v ∧ 0 ≤ v ∧ v ≤ 1 ∧ (0 ≤ x → 1 / 2 ≤ v) ∧ (x ≤ 0 → v ≤ 1 / 2) := by
+  rcases lt_trichotomy x 0 with hx | hx | hx
+  · obtain ⟨h0, h1⟩ := tcdfPos_range I hI ν (-x)
+    refine ⟨_, (tcdf_neg_eq I ν x hx).1, by linarith, by linarith, fun h => absurd hx (not_lt.mpr h), fun _ => by linarith⟩
+  · subst hx
+    refine ⟨1 / 2, by simp [tcdf], by norm_num, by norm_num, fun _ => le_refl _, fun _ => le_refl _⟩
+  · obtain ⟨h0, h1⟩ := tcdfPos_range I hI ν x
+    have hne : ¬ x = 0 := ne_of_gt hx
+    refine ⟨tcdfPos I ν x, by simp [tcdf, hne, hx], by linarith, h1, fun _ => h0, fun h => absurd hx (not_lt.mpr h)⟩
+
+theorem tcdf_zero (I : ℚ → ℚ → ℚ → ℚ) (ν : ℚ) : tcdf I ν 0 = some (1 / 2) := by simp [tcdf]
+
+/-- **tcdf_symmetric** — F(−x) = 1 − F(x) for every x, exactly, in the model. -/
+theorem tcdf_symmetric (I : ℚ → ℚ → ℚ → ℚ) (ν x : ℚ) :
+    ∃ v w, tcdf I ν x = some v ∧ tcdf I ν (-x) = some w ∧ v + w = 1 := by
+  rcases lt_trichotomy x 0 with hx | hx | hx
+  · obtain ⟨a, b⟩ := tcdf_neg_eq I ν x hx
+    exact ⟨_, _, a, b, by ring⟩
+  · subst hx
+    exact ⟨1 / 2, 1 / 2, tcdf_zero I ν, by simpa using tcdf_zero I ν, by norm_num⟩
+  · have hx' : -x < 0 := by linarith
+    obtain ⟨a, b⟩ := tcdf_neg_eq I ν (-x) hx'
+    rw [neg_neg] at a b
+    exact ⟨_, _, b, a, by ring⟩
+
+/-- **ncdf_monotone_range_symmetric** — for ANY antitone, non-negative `erfc` with
+erfc(−z) = 2 − erfc(z) (and σ, √2 > 0) the model of `NormalDist.CDF` is monotone, lies in [0,1]
+and satisfies F(μ−t) = 1 − F(μ+t). -/
+theorem ncdf_monotone_range_symmetric (erfc : ℚ → ℚ) (E : ErfcLike erfc) (s2 μ σ : ℚ)
+    (hs : 0 < s2) (hσ : 0 < σ) :
+    (∀ x y, x ≤ y → ncdf erfc s2 μ σ x ≤ ncdf erfc s2 μ σ y) ∧
+    (∀ x, 0 ≤ ncdf erfc s2 μ σ x ∧ ncdf erfc s2 μ σ x ≤ 1) ∧
+    (∀ t, ncdf erfc s2 μ σ (μ - t) = 1 - ncdf erfc s2 μ σ (μ + t)) := by
+  have hd : 0 < σ * s2 := mul_pos hσ hs
+  refine ⟨?_, ?_, ?_⟩
+  · intro x y hxy
+    rw [ncdf_eq, ncdf_eq]
+    have : -(y - μ) / (σ * s2) ≤ -(x - μ) / (σ * s2) :=
+      div_le_div_of_nonneg_right (by linarith) hd.le
+    have := E.anti _ _ this
+    linarith
+  · intro x
+    rw [ncdf_eq]
+    have h0 := E.nonneg (-(x - μ) / (σ * s2))
+    have h1 := E.nonneg (-(-(x - μ) / (σ * s2)))
+    rw [E.refl] at h1
+    constructor <;> linarith
+  · intro t
+    rw [ncdf_eq, ncdf_eq]
+    have e1 : -(μ - t - μ) / (σ * s2) = -(-(μ + t - μ) / (σ * s2)) := by ring
+    rw [e1, E.refl]
+    ring
+
+/-- the hypotheses are satisfiable -/
+example : ErfcLike (fun _ => 1) := ⟨fun _ _ _ => le_refl _, fun _ => by norm_num, fun _ => by norm_num⟩
+
+/-- **betainc_switch_symmetric** — the two branches of `mathBetaInc` are I_x(a,b) and
+1 − I_{1−x}(b,a) of the SAME continued fraction: for any `cf`, any prefactor with
+bt(x,a,b) = bt(1−x,b,a), 0 ≤ x ≤ 1, and x not exactly on the switch point (a+1)/(a+b+2), the
+values computed for (x,a,b) and (1−x,b,a) add to 1 (and one panics iff the other does). -/
+theorem betainc_switch_symmetric (bt : ℚ → ℚ → ℚ → ℚ) (cf : ℚ → ℚ → ℚ → Option ℚ) (x a b : ℚ)
+    (hbt : bt x a b = bt (1 - x) b a) (hx : 0 ≤ x ∧ x ≤ 1) (hab : a + b + 2 ≠ 0)
+    (hsw : x ≠ (a + 1) / (a + b + 2)) :
+    (∃ u, betaInc bt cf x a b = .val u ∧ betaInc bt cf (1 - x) b a = .val (1 - u)) ∨
+    (betaInc bt cf x a b = .panic ∧ betaInc bt cf (1 - x) b a = .panic) := by
+  have hthr := switch_threshold a b hab
+  have h1 : ¬ (x < 0 ∨ 1 < x) := by rintro (h | h) <;> linarith [hx.1, hx.2]
+  have h2 : ¬ (1 - x < 0 ∨ 1 < 1 - x) := by rintro (h | h) <;> linarith [hx.1, hx.2]
+  have hb : ((0 : ℚ) < x ∧ x < 1) ↔ ((0 : ℚ) < 1 - x ∧ 1 - x < 1) := by
+    constructor <;> rintro ⟨p, q⟩ <;> constructor <;> linarith
+  have hxx : 1 - (1 - x) = x := by ring
+  have hbtv : (if (0 : ℚ) < 1 - x ∧ 1 - x < 1 then bt (1 - x) b a else 0)
+      = (if (0 : ℚ) < x ∧ x < 1 then bt x a b else 0) := by
+    by_cases h : (0 : ℚ) < x ∧ x < 1
+    · rw [if_pos h, if_pos (hb.mp h), hbt]
+    · rw [if_neg h, if_neg (fun h' => h (hb.mpr h'))]
+  rcases lt_or_gt_of_ne hsw with hlt | hgt
+  · have hge : ¬ (1 - x < (b + 1) / (b + a + 2)) := by linarith
+    simp only [betaInc, Stats.Beta.one, Stats.Beta.two, Bool.or_eq_true, Bool.and_eq_true, lt_rat,
+      ofNat_rat, Nat.cast_zero, Nat.cast_one, Nat.cast_ofNat, h1, h2, if_false, add_rat, div_rat,
+      sub_rat, mul_rat, hlt, hge, if_true, hxx, hbtv]
+    cases hcf : cf x a b with
+    | none => right; simp
+    | some v => left; exact ⟨_, rfl, rfl⟩
+  · have hlt' : 1 - x < (b + 1) / (b + a + 2) := by linarith
+    have hge : ¬ (x < (a + 1) / (a + b + 2)) := not_lt.mpr hgt.le
+    simp only [betaInc, Stats.Beta.one, Stats.Beta.two, Bool.or_eq_true, Bool.and_eq_true, lt_rat,
+      ofNat_rat, Nat.cast_zero, Nat.cast_one, Nat.cast_ofNat, h1, h2, if_false, add_rat, div_rat,
+      sub_rat, mul_rat, hlt', hge, if_true, hbtv]
+    cases hcf : cf (1 - x) b a with
+    | none => right; simp
+    | some v => left; exact ⟨_, rfl, by simp⟩
+
+end Dist
 
 end C12
